@@ -23,6 +23,9 @@ func c33GrandpaDecoders() []ref.C33Decoder {
 		n := m.Name
 		if strings.Contains(n, "round=1 ") || strings.Contains(n, "round=1}") {
 			if (strings.Contains(n, "set=1 ") || strings.Contains(n, "set=1}")) && (!strings.Contains(n, "number=") || strings.Contains(n, "number=1 ") || strings.Contains(n, "number=1}")) {
+				if !verifmc.Thorough() && (strings.Contains(n, "prevotes=2") || strings.Contains(n, "precommits=0}")) && strings.Contains(n, "CatchUpResponse") {
+					continue // quick: catch-up responses with (0,1), (0,2), (1,1), (1,2) votes
+				}
 				cat = append(cat, ref.C33Valid{Name: n, Enc: m.Enc})
 			}
 		}
@@ -61,7 +64,7 @@ func c33GrandpaDecoders() []ref.C33Decoder {
 func TestVerif_C33_grandpa(t *testing.T) {
 	r := verifmc.NewReport("C33", "grandpa", "exploration")
 	defer r.Write()
-	cfg := ref.C33Config{MaxLen: verifmc.Pick(2, 3), CraftedScale: verifmc.Pick([]uint64{1 << 14, 1 << 22}, []uint64{1 << 14, 1 << 22, 1 << 30}), AllocAll: verifmc.Thorough()}
+	cfg := ref.C33Config{MaxLen: verifmc.Pick(2, 3), CraftedScale: verifmc.Pick([]uint64{1 << 14, 1 << 20}, []uint64{1 << 14, 1 << 22, 1 << 30}), AllocAll: verifmc.Thorough()}
 	r.Rule = ref.C33Rule(cfg)
 	for _, a := range ref.C33Assumptions() {
 		r.Assumption(a)
